@@ -3,6 +3,8 @@ import VsbModel.Model.Split
 import VsbModel.Model.ChunkedHash
 import VsbModel.Model.Sync
 import VsbModel.Model.Rotate
+import VsbModel.Model.Dedup
+import VsbModel.Model.Metadata
 
 /-!
 Line-protocol driver for the executable models: one request per line `<op> <json>`, one JSON
@@ -214,6 +216,60 @@ def opRotate (j : Json) : Except String Json := do
   | .done st' g b del ok => pure (Json.mkObj [("result", "done"), ("group", g), ("backup", b),
       ("deleted", Json.arr (del.map Json.str).toArray), ("ok", ok), ("storage", storageJson st')])
 
+/-! ## dedup -/
+open Vsb.Dedup in
+def parseRec (j : Json) : Except String (Rec String String String) := do
+  pure { unique := (← (← j.getObjVal? "unique").getBool?), hash := (← (← j.getObjVal? "hash").getStr?),
+         fp := (← (← j.getObjVal? "fp").getStr?), size := (← (← j.getObjVal? "size").getNat?),
+         path := (← (← j.getObjVal? "path").getStr?) }
+
+open Vsb.Dedup in
+/-- `dedup`: {empty, group:[[rec..]|null ..], events:[{path,fp,size,hash}]} → the records a run writes. -/
+def opDedup (j : Json) : Except String Json := do
+  let empty ← (← j.getObjVal? "empty").getStr?
+  let group ← (← (← j.getObjVal? "group").getArr?).toList.mapM (fun b =>
+    match b with
+    | .null => pure none
+    | b => do pure (some (← (← b.getArr?).toList.mapM parseRec)))
+  let events ← (← (← j.getObjVal? "events").getArr?).toList.mapM (fun e => do
+    pure ({ path := (← (← e.getObjVal? "path").getStr?), fp := (← (← e.getObjVal? "fp").getStr?),
+            size := (← (← e.getObjVal? "size").getNat?), hash := (← (← e.getObjVal? "hash").getStr?) } : FileEv String String String))
+  let steps := runBackup empty group events
+  pure (Json.arr (steps.map (fun s => Json.mkObj [("unique", s.record.unique), ("hash", s.record.hash),
+    ("fp", s.record.fp), ("size", s.record.size), ("path", s.record.path), ("reads", s.reads)])).toArray)
+
+/-! ## mdline -/
+open Vsb.Metadata in
+/-- `mdline`: numeric fields travel as decimal strings (they exceed what JSON readers keep exact). -/
+def opMdline (j : Json) : Except String Json := do
+  let str (k : String) : Except String String := do (← j.getObjVal? k).getStr?
+  let unique ← (← j.getObjVal? "unique").getBool?
+  let hash ← str "hash"
+  let some hb := hexDecode hash.toList | throw "hash"
+  let some dev := (← str "dev").toNat? | throw "dev"
+  let some ino := (← str "ino").toNat? | throw "ino"
+  let some mt := (← str "mtime_ns").toInt? | throw "mtime"
+  let some size := (← str "size").toNat? | throw "size"
+  let path ← str "path"
+  let item : Item := ⟨unique, hb, ⟨dev, ino, mt⟩, size, path.toList⟩
+  let line := item.encode
+  let dec := match Item.decode line with
+    | some d => Json.mkObj [("unique", d.unique), ("hash", String.ofList (hexEncode d.hash)),
+        ("dev", toString d.fp.device), ("ino", toString d.fp.inode), ("mtime_ns", toString d.fp.mtimeNs),
+        ("size", toString d.size), ("path", String.ofList d.path)]
+    | none => Json.null
+  pure (Json.mkObj [("line", String.ofList line ++ "\n"), ("decoded", dec), ("valid_path", validPath path.toList)])
+
+open Vsb.Metadata in
+/-- `mdparse`: decode an arbitrary line. -/
+def opMdparse (j : Json) : Except String Json := do
+  let line ← (← j.getObjVal? "line").getStr?
+  match Item.decode line.toList with
+  | some d => pure (Json.mkObj [("unique", d.unique), ("hash", String.ofList (hexEncode d.hash)),
+        ("dev", toString d.fp.device), ("ino", toString d.fp.inode), ("mtime_ns", toString d.fp.mtimeNs),
+        ("size", toString d.size), ("path", String.ofList d.path)])
+  | none => pure Json.null
+
 def dispatch (op : String) (j : Json) : Except String Json :=
   match op with
   | "split" => opSplit j
@@ -222,6 +278,9 @@ def dispatch (op : String) (j : Json) : Except String Json :=
   | "sync" => opSync j
   | "list" => opList j
   | "rotate" => opRotate j
+  | "dedup" => opDedup j
+  | "mdline" => opMdline j
+  | "mdparse" => opMdparse j
   | _ => .error s!"unknown op {op}"
 
 def handle (line : String) : String :=
